@@ -2,7 +2,7 @@
 from . import core, exprio, graphs, graphcorr
 from .core import Finding
 
-THEOREMS = ["Cspuz.C08.C08_not_adjacent_graph", "Cspuz.C08.C08_not_adjacent_grid", "Cspuz.C08.C08_segmenting_graph", "Cspuz.C08.C08_grid_line", "Cspuz.C08.C08_grid_diag_sound", "Cspuz.C08.C08_grid_diag_complete"]
+THEOREMS = ["Cspuz.C08.C08_not_adjacent_graph", "Cspuz.C08.C08_not_adjacent_grid", "Cspuz.C08.C08_segmenting_graph", "Cspuz.C08.C08_grid_line", "Cspuz.C08.C08_grid_diag_sound", "Cspuz.C08.C08_grid_diag_complete", "Cspuz.C08.C08_planar", "Cspuz.C08.C08_grid"]
 
 
 def correspond(ctx):
